@@ -307,6 +307,76 @@ def check(model, rep):
                 '(IndexError under NUMBA_BOUNDSCHECK / in the interpreter, neighbouring memory otherwise)' % (bad[0][1], bad[0][2], ', '.join(tabs))) if bad else 'driven by the joint vector',
                line=bad[0][0].lineno if bad else None)
     rep.floor('R17.3', 'kernels taking a screw table and a joint vector', n_driven, 7)
+    # ---------------------------------------------------------------- R17.4
+    # An explicit signature switches off Numba's specialisation on the argument types: a float handed to a parameter declared int64 is
+    # CAST (truncated toward zero) without an error, while the interpreted source computes with the float - compiled != interpreted.
+    rep.rule('R17.4', 'explicit @jit signatures declare no integer scalar type for a parameter that the kernel uses as a value (arithmetic, stored, '
+                      'returned, passed on): a real-valued argument would be truncated silently by the compiled kernel only')
+    import re as _re17
+    n_sig = 0
+    for fi in sorted(ks, key=lambda f: f.key):
+        d_ = fi.jit
+        sigs = []
+        if isinstance(d_, ast.Call):
+            for a_ in d_.args:
+                if isinstance(a_, ast.Constant) and isinstance(a_.value, str):
+                    sigs.append(a_.value)
+                elif isinstance(a_, (ast.List, ast.Tuple)):
+                    sigs += [x_.value for x_ in a_.elts if isinstance(x_, ast.Constant) and isinstance(x_.value, str)]
+        for sg in sigs:
+            n_sig += 1
+            t_ = sg.strip()
+            if not t_.endswith(')'):
+                rep.ob('R17.4', fi, 'signature %s' % sg[:60], False, 'signature text not understood', shape=True)
+                continue
+            depth, start = 0, None
+            for i_ in range(len(t_) - 1, -1, -1):
+                if t_[i_] == ')':
+                    depth += 1
+                elif t_[i_] == '(':
+                    depth -= 1
+                    if depth == 0:
+                        start = i_
+                        break
+            if start is None:
+                rep.ob('R17.4', fi, 'signature %s' % sg[:60], False, 'signature text not understood', shape=True)
+                continue
+            args_, cur, depth = [], '', 0
+            for ch in t_[start + 1:-1]:
+                if ch in '([':
+                    depth += 1
+                elif ch in ')]':
+                    depth -= 1
+                if ch == ',' and depth == 0:
+                    args_.append(cur.strip())
+                    cur = ''
+                else:
+                    cur += ch
+            if cur.strip():
+                args_.append(cur.strip())
+            for k_, ty in enumerate(args_):
+                if k_ >= len(fi.params) or not _re17.match(r'^(u?int(8|16|32|64|p|c)?|uintp|boolean|bool_?|b1|i[1248]|u[1248])$', ty):
+                    continue
+                pnm = fi.params[k_]
+                value_use = None
+                for n_ in walk_own(fi.node):
+                    if not (isinstance(n_, ast.Name) and n_.id == pnm and isinstance(n_.ctx, ast.Load)):
+                        continue
+                    par = fi.module.parents.get(n_)
+                    if isinstance(par, ast.BinOp) or (isinstance(par, ast.UnaryOp) and isinstance(par.op, ast.USub)) or isinstance(par, (ast.Return, ast.Tuple, ast.List)):
+                        value_use = par
+                    elif isinstance(par, ast.Assign) and par.value is n_ and any(isinstance(t2, ast.Subscript) for t2 in par.targets):
+                        value_use = par
+                    elif isinstance(par, ast.Call) and n_ in par.args and src(par.func).split('.')[-1] not in ('range', 'len', 'zeros', 'ones', 'empty', 'eye', 'identity', 'arange'):
+                        value_use = par
+                    if value_use is not None:
+                        break
+                rep.ob('R17.4', fi, '%s: parameter `%s` declared %s' % (fi.name, pnm, ty), value_use is None,
+                       ('the signature %s declares `%s` as %s, but the kernel uses it as a value (`%s`): called with a real number the compiled kernel computes with the '
+                        'truncated integer - no error - while %s.py_func and the interpreter use the number given' % (sg[:70], pnm, ty, src(value_use)[:50] if value_use is not None else '', fi.name))
+                       if value_use is not None else 'used as a count / index only', line=fi.node.lineno)
+    rep.count('explicit @jit signatures examined', n_sig)
+    rep.floor('R17.4', 'explicit @jit signatures', n_sig, 1)
     # ---------------------------------------------------------------- R17.2
     kernel_by_name = {fi.name: fi for fi in ks}
     _envs = {}
